@@ -6,3 +6,10 @@ import G3D.Props.C06
 #print axioms G3D.Props.C06.pyramid_volume_term
 #print axioms G3D.Props.C06.centre_in_hull
 #print axioms G3D.Props.C06.heron_is_half_cross
+#print axioms G3D.Props.C06.polygon_measures_input_order
+#print axioms G3D.Props.C06.polygon_area_sq_is_vector_area
+#print axioms G3D.Props.C06.neg_polygon_measures
+#print axioms G3D.Props.C06.polyhedron_measures_order_orientation
+#print axioms G3D.Props.C06.polyhedron_volume_is_surface_integral
+#print axioms G3D.Props.C06.face_from_any_vertex_order
+#print axioms G3D.Props.C06.polyhedron_moved_measures
